@@ -45,21 +45,44 @@ EvalSnippets == {
     "\"a\".contains(\"\")", "\"\".starts_with(\"\")", "!true", "(!false).type() == \"bool\"",
     "1.extern::nope()", "1.extern::nope(2)", "{\"a\": [1, {\"b\": null}]}.get(\"a\").get(1).get(\"b\") == null"}
 
+\* DATALOG SOURCE is an entry point too: syntactically plausible text whose literals are out of range,
+\* malformed or not what their type requires (fault = "source", position "source")
+SourceSnippets == {
+    "check if f($x) trusting ed25519/00", "check if f($x) trusting secp256r1/00", "check if f($x) trusting ed25519/",
+    "check if f($x) trusting ed25519/ffffffffffffffffffffffffffffffffffffffffffffffffffffffffffffffffff",
+    "check if f($x) trusting ed25519/0200000000000000000000000000000000000000000000000000000000000000",
+    "check if f($x) trusting secp256r1/02ffffffffffffffffffffffffffffffffffffffffffffffffffffffffffffffff",
+    "check if f($x) trusting secp256r1/0000000000000000000000000000000000000000000000000000000000000000",
+    "r($x) <- f($x) trusting ed25519/00", "allow if true trusting ed25519/00", "allow if true trusting ed25519/zz", "deny if f($x) trusting secp256r1/0",
+    "f(9223372036854775808)", "f(-9223372036854775809)", "f(99999999999999999999999999)", "f(-0)",
+    "f(2020-13-45T99:99:99Z)", "f(0000-00-00T00:00:00Z)", "f(99999-01-01T00:00:00Z)", "f(hex:0)", "f(hex:zz)", "f(hex:)",
+    "f({})", "f({{1}})", "f({\"a\": {1}})", "f({1, \"a\"})", "f([[[[[[[[[[1]]]]]]]]]])", "f({\"a\": 1, \"a\": 2})", "f({1, 1})",
+    "check if 1.extern::()", "check if $x", "check if f($x), $y == 1", "r($y) <- f($x)", "r($x) <- f(1)", "check if [1].all($x -> [2].all($x -> true))",
+    "f(\"unterminated", "check if", ";;;;", "", "f(1) trusting authority", "check all", "reject if true or", "f($x)", "f(1", "f 1)", "check if f($x) trusting",
+    "check if f($x) trusting previous, previous", "check if f($x) trusting {k}", "f({p})", "check if true trusting authority trusting previous"}
+
 \* the latest stage at which the fault may surface as an error ("never": harmless, must be served)
 CaughtAt(f) ==
     CASE f = "none" -> "never"
       [] f \in {"eval", "eval_snippet"} -> "run"
+      [] f = "source" -> "never"                      \* unspecified: parsed or refused, never a crash
       [] f \in {"redeclares_default_symbol", "redeclares_earlier_symbol", "duplicate_public_key", "payload_garbage", "deep_array_nesting"} -> "decode"
       [] f \in {"expr_empty", "expr_binary_underflow", "expr_leftover", "expr_closure_first", "closure_two_params", "expr_ffi_name_out_of_range"} -> "run"
       [] f \in {"check_no_queries", "huge_symbol_table", "payload_empty", "set_mixed_types", "version_absent"} -> "never"   \* unspecified: served or refused, never a crash
       [] OTHER -> "load"
 
+\* where the adversarial block sits: in a signed token, or inside an authorizer SNAPSHOT (a token block
+\* of the saved world, or the authorizer's own block) - snapshots are external data too
+TokenPositions == {"authority", "block1", "third_party"}
+SnapPositions == {"snapshot_block", "snapshot_authorizer"}
+Positions == TokenPositions \cup SnapPositions
+
 \* versions outside the supported range and references that cannot be resolved must be refused BEFORE evaluation
 \* (a symbol repeated inside ONE block's own table, as opposed to an earlier block's, is left unspecified)
-Unspecified(f, pos) == f = "redeclares_earlier_symbol" /\ pos # "block1"
+\* (for snapshots only the no-crash part of the property applies: when a restored world must refuse is not fixed)
+Unspecified(f, pos) == (f = "redeclares_earlier_symbol" /\ pos # "block1") \/ pos \in SnapPositions \/ pos = "source"
 MustBeRefusedBeforeRun(f) == CaughtAt(f) \in {"decode", "load"}
 
-Positions == {"authority", "block1", "third_party"}
 Ops == {"print", "print_block_source", "block_version", "block_symbols", "block_public_keys", "block_external_key",
         "context", "revocation_identifiers", "authorizer", "authorize", "query", "dump_code", "print_world",
         "snapshot_roundtrip", "append", "seal", "third_party_request", "unverified_sweep"}
@@ -70,6 +93,7 @@ Init == \/ c \in {[fault |-> f, pos |-> p] : f \in Faults, p \in Positions}
         \/ c \in {[fault |-> "eval", pos |-> p, op |-> o, a |-> a, b |-> b, where |-> w] :
                      p \in Positions, o \in EvalOps, a \in Extremes, b \in Extremes, w \in EvalWhere}
         \/ c \in {[fault |-> "eval_snippet", pos |-> p, src |-> x] : p \in Positions, x \in EvalSnippets}
+        \/ c \in {[fault |-> "source", pos |-> "source", src |-> x] : x \in SourceSnippets}
 Next == UNCHANGED c
 Spec == Init /\ [][Next]_c
 
